@@ -38,3 +38,76 @@ func VH_C15_verify() {
 	vAssert("O5-own-tag-stable", c.ourInstanceTag == ours)
 	vReach("end")
 }
+
+// H-C15-extract: the public routing helper on a message whose header was
+// written by the real messageHeader (symbolic tags) and on a fragment written
+// by the real fragmentPrefix: it reports exactly the receiver and sender tags
+// the message carries; v2 and non-OTR input are not ok.
+//
+// vh: prop=C15 expect=end unwind=200
+func VH_C15_extract() {
+	sender := vU32("sender")
+	receiver := vU32("receiver")
+	c := &Conversation{version: otrV3{}}
+	c.Policies.add(allowV3)
+	vAssume(sender >= 0x100) // messageHeader generates a tag when ours is 0
+	c.ourInstanceTag = sender
+	c.theirInstanceTag = receiver
+	switch vChoose("form", 4) {
+	case 0: // whole message
+		hdr, err := c.messageHeader(msgTypeData)
+		vAssume(err == nil)
+		body := vBytes("body", 3)
+		m := c.encode(append(hdr, body...))
+		ours, theirs, ok := ExtractInstanceTags(m)
+		vObserve("msg", m, ours, theirs, ok)
+		vAssert("message-ok", ok)
+		vAssert("message-receiver-tag", ours == receiver)
+		vAssert("message-sender-tag", theirs == sender)
+	case 1: // v3 fragment
+		pre := otrV3{}.fragmentPrefix(0, 2, sender, receiver)
+		m := append(pre, "AAAA,"...)
+		ours, theirs, ok := ExtractInstanceTags(m)
+		vObserve("frag", m, ours, theirs, ok)
+		vAssert("fragment-ok", ok)
+		vAssert("fragment-receiver-tag", ours == receiver)
+		vAssert("fragment-sender-tag", theirs == sender)
+	case 2: // v2 fragment: no tags
+		m := append(otrV2{}.fragmentPrefix(0, 2, sender, receiver), "AAAA,"...)
+		_, _, ok := ExtractInstanceTags(m)
+		vAssert("v2-fragment-not-ok", !ok)
+	case 3: // arbitrary non-OTR text
+		t := vBytes("t", 6)
+		vAssume(!vAll(t[0] == '?', t[1] == 'O', t[2] == 'T', t[3] == 'R'))
+		_, _, ok := ExtractInstanceTags(t)
+		vAssert("plain-not-ok", !ok)
+	}
+	vReach("end")
+}
+
+// H-C15-own: the own instance tag is at least 0x100 for every output of the
+// randomness source, and stable once chosen.
+//
+// vh: prop=C15 expect=end unwind=12
+func VH_C15_own() {
+	c := &Conversation{version: otrV3{}}
+	r := vhNewRand("rnd")
+	c.Rand = r
+	// fairness: at most two unusable draws (< 0x100) in a row; the third is usable
+	// (an unusable draw has probability 2^-24)
+	d1, d2, d3 := vBytes("draw", 4), vBytes("draw", 4), vBytes("draw", 4)
+	vAssume(uint32(d3[0])<<24|uint32(d3[1])<<16|uint32(d3[2])<<8|uint32(d3[3]) >= 0x100)
+	r.next = [][]byte{d1, d2, d3}
+	vNote("fairness: the randomness source yields a usable instance tag (>= 0x100) within three draws")
+	t := c.InitializeInstanceTag(0)
+	vObserve("own", t)
+	vAssert("own-tag-valid", t >= 0x100)
+	vAssert("own-tag-stored", c.ourInstanceTag == t)
+	t2 := c.GetOurInstanceTag()
+	vAssert("own-tag-stable", t2 == t)
+	given := vU32("given")
+	vAssume(given != 0)
+	c2 := &Conversation{version: otrV3{}}
+	vAssert("given-tag-kept", vAll(c2.InitializeInstanceTag(given) == given, c2.GetOurInstanceTag() == given))
+	vReach("end")
+}
